@@ -3,6 +3,7 @@ package vg
 import (
 	"encoding/json"
 	"fmt"
+	"os"
 	"sort"
 	"strings"
 	"time"
@@ -324,6 +325,9 @@ func (h *histRun) connect(ver string) *WSClient {
 		}
 	}
 	rc := NewRefClient(c.Idx, ParseVersion(ver))
+	if os.Getenv("VG_RCDEBUG") == fmt.Sprint(c.Idx) {
+		rc.Debug = true
+	}
 	h.rcs[c] = rc
 	h.maybePending[c.Idx] = map[string]bool{}
 	h.reqTarget[c.Idx] = map[uint64]string{}
